@@ -234,7 +234,7 @@ def explore(run_seed: int, cfg: dict) -> dict:
         for attempt in range(10):
             cand = popgen.generate(r.randrange(1 << 30), year, min_rows=lo, max_rows=r.randint(lo, hi), stat_values=stat)
             if graph is None:
-                graph, _ = compare.capture_graph(popgen.to_frame(cand, types=types), params, functions)
+                graph, _ = compare.full_graph(popgen.to_frame(cand, types=types), params, functions)
                 if graph is None:
                     from gettsim import config
 
@@ -429,7 +429,7 @@ def replay_case(case: dict) -> dict:
     warnings.simplefilter("ignore")
     params, functions = set_up_policy_environment(case["date"])
     types = popgen.input_types()
-    graph, _ = compare.capture_graph(popgen.to_frame({"cols": case["A"]}, types=types), params, functions)
+    graph, _ = compare.full_graph(popgen.to_frame({"cols": case["A"]}, types=types), params, functions)
     if graph is None:
         from gettsim import config
 
